@@ -274,7 +274,10 @@ def _struct_probe(spec):
     """-> [(model line, expected observation)]"""
     if not spec["triples"]:
         return []
-    from rdflib.plugins.serializers.turtle import TurtleSerializer
+    try:
+        from rdflib.plugins.serializers.turtle import TurtleSerializer
+    except Exception:
+        TurtleSerializer = None  # noqa: N806
     lines = []
     toks, bmap = _encode_graph(spec)
     gtxt = " ".join(toks)
@@ -284,16 +287,22 @@ def _struct_probe(spec):
     for s_, p_, _o in spec["triples"]:
         if s_[0] == "b" and p_[1] == gg.FIRST and s_[1] not in heads:
             heads.append(s_[1])
-    if heads:
-        ser = TurtleSerializer(g)
-        ser.reset()
-        ser.preprocess()
-        for h in heads[:VL_MAX]:
+    if heads and TurtleSerializer is not None:
+        try:  # a writer that no longer has this method (refactoring) simply drops this probe
+            ser = TurtleSerializer(g)
+            ser.reset()
+            ser.preprocess()
+            test = ser.isValidList
+        except Exception:
+            test = None
+        for h in heads[:VL_MAX] if test is not None else []:
             try:
-                r = _with_timeout(lambda: ser.isValidList(BNode(h)), 2.0)
+                r = _with_timeout(lambda: test(BNode(h)), 2.0)
                 exp = "true" if r else "false"
             except _FmtTimeout:
                 exp = "hang"
+            except Exception:
+                continue
             lines.append((f"vl b{bmap[h]} {gtxt}", exp))
     # which blank nodes the writers left unlabelled must satisfy Pre
     kw = {"base": spec["base"]} if spec.get("base") else {}
